@@ -215,7 +215,29 @@ impl StorageEngine {
     fn get_shard(&self, db: DatabaseIndex, key: &[u8]) -> Result<&Arc<RwLock<DatabaseShard>>> {
         let database = self.databases.get(db).ok_or(StorageError::InvalidDatabase)?;
         let shard_idx = self.get_shard_index(key);
-        Ok(&database.shards[shard_idx])
+        let shard = &database.shards[shard_idx];
+        
+        // Lazy expiration, in the one place every single-key operation of every
+        // data type passes through: from its deadline on a key is absent to all
+        // of them (reads, writes that would update it, type checks, conditions,
+        // counters), whether or not the background sweeper has run yet.
+        let expired = {
+            let shard_guard = shard.read().unwrap();
+            shard_guard.data.get(key).map_or(false, |stored_value| stored_value.is_expired())
+        };
+        if expired {
+            let mut shard_guard = shard.write().unwrap();
+            if shard_guard.data.get(key).map_or(false, |stored_value| stored_value.is_expired()) {
+                if let Some(stored_value) = shard_guard.data.remove(key) {
+                    shard_guard.expiring_keys.remove(key);
+                    shard_guard.mark_modified(key);
+                    let memory_size = self.calculate_value_size(key, &stored_value.value);
+                    self.memory_manager.remove_memory(memory_size);
+                }
+            }
+        }
+        
+        Ok(shard)
     }
     
     /// Set a string value
@@ -493,8 +515,11 @@ impl StorageEngine {
         // Collect keys from all shards
         for shard in &database.shards {
             let shard_guard = shard.read().unwrap();
-            for key in shard_guard.data.keys() {
-                all_keys.push(key.clone());
+            for (key, stored_value) in shard_guard.data.iter() {
+                // Keys past their deadline are absent, swept or not
+                if !stored_value.is_expired() {
+                    all_keys.push(key.clone());
+                }
             }
         }
         
@@ -2118,7 +2143,10 @@ impl StorageEngine {
         // Collect keys from all shards
         for shard in &database.shards {
             let shard_guard = shard.read().unwrap();
-            for key in shard_guard.data.keys() {
+            for (key, stored_value) in shard_guard.data.iter() {
+                if stored_value.is_expired() {
+                    continue;
+                }
                 let key_str = String::from_utf8_lossy(key);
                 if pattern_matches(&pattern_str, &key_str) {
                     matching_keys.push(key.clone());
